@@ -510,7 +510,7 @@ pub fn run(tier: Tier) -> i32 {
         }
     }
     rep.set("rule", json!(format!("(strings) all sequences of <= {k} atoms from {} text atoms (letters, blank, & < > \" ' as entities/raw, e-acute, emoji, escaped \\n, real newline, \\\\n, ${{v}}, {{{{1+1}}}}, &amp;amp;) x 5 carriers (text attribute, element content, CDATA content, <text> attribute, <text> content) x 3 placements (default; tl + d-text-pre; vertical outside): the unescaped character data of the generated <text>/<tspan>s must equal the author's text after substitution, one <tspan> per line (reversed for vertical text; zero-width space for empty lines, NBSP for pre-formatted blanks; white space before a line break not compared). (placement) 8 shapes x 13 text-loc values (9 locations + 4 edge offsets) x {{default, d-text-inside, d-text-outside}} x {{horizontal, vertical}} x text-offset {{-, 0, 3}} x text-dx/dy/dxy forms x 1/2/3-line texts{}: anchor = text-loc point of the shape's box moved inward/outward by the offset plus dx/dy; alignment classes per the rule table; text classes moved, shape-only classes not; line spacing; no text attribute left; shape element identical to the same document without text.", ATOMS.len(), if tier == Tier::Thorough { " x text-lsp" } else { "" })));
-    rep.set("also", json!("Also carriers: text attribute on an element with an explicit end tag / with a line break as content, content interrupted by a comment, content made of a text piece followed by CDATA, <box> and <point> content; atoms: escaped dollar, '}}' alone, '{{' never closed."));
+    rep.set("also", json!("Also carriers: text attribute on an element with an explicit end tag / with a line break as content, content interrupted by a comment, content made of a text piece followed by CDATA, <box> and <point> content; atoms: escaped dollar, '}}' alone, '{{' never closed. Scenarios (second review round; expected character data, anchor, classes, style): adjacent text / CDATA pieces before and after child elements, processing instructions inside content, <defaults> with the text as content / attribute / on <text>, shapes under matrix / rotate / translate transforms, <text> with child elements positioned by xy, text on <use> (attribute and content), <reuse> of a <text> with x / y, text-style next to style."));
     let st = run_space(scases.len(), |i| check_string(&scases[i].0, scases[i].1, scases[i].2));
     rep.sample(json!({"leg": "strings", "atoms": scases[scases.len() / 2].0.iter().map(|a| ATOMS[*a].name).collect::<Vec<_>>(), "carrier": format!("{:?}", scases[scases.len() / 2].1)}));
     rep.absorb("strings", st);
@@ -538,6 +538,70 @@ pub fn run(tier: Tier) -> i32 {
     let st = run_space(pcases.len(), |i| check_placement(&pcases[i]));
     rep.sample(json!({"leg": "placement", "shape": SHAPES[pcases[pcases.len() / 3].shape].name, "loc": LOCS[pcases[pcases.len() / 3].loc]}));
     rep.absorb("placement", st);
+    // ---- scenarios from the second review round: (name, document, expected character data of the last <text>,
+    // expected anchor, classes the text must carry, attribute fragments which must be present on it)
+    type Scn = (&'static str, &'static str, &'static str, Option<(f64, f64)>, &'static [&'static str], &'static [(&'static str, &'static str)]);
+    let scenarios: Vec<Scn> = vec![
+        ("pieces/pi-between", r##"<svg><rect xy="10 20" wh="30 10">a<?pi x?>b</rect></svg>"##, "ab", Some((25., 25.)), &[], &[]),
+        ("pieces/pi-after", r##"<svg><rect xy="10 20" wh="30 10">hi<?pi x?></rect></svg>"##, "hi", Some((25., 25.)), &[], &[]),
+        ("pieces/cdata-then-element", r##"<svg><text x="1" y="2">a<![CDATA[b]]><tspan>c</tspan></text></svg>"##, "abc", Some((1., 2.)), &[], &[]),
+        ("pieces/text-cdata-text-after-element", r##"<svg><text x="1" y="2"><tspan>c</tspan>d<![CDATA[e]]>f</text></svg>"##, "cdef", Some((1., 2.)), &[], &[]),
+        ("pieces/cdata-text-then-element", r##"<svg><text x="1" y="2"><![CDATA[a]]>b<tspan>c</tspan></text></svg>"##, "abc", Some((1., 2.)), &[], &[]),
+        ("defaults/content-form", r##"<svg><defaults><rect text-loc="tl" class="d-text-bold"/></defaults><rect xy="20 0" wh="10">own</rect></svg>"##, "own", Some((21., 1.)), &["d-text-bold", "d-text-top", "d-text-left"], &[]),
+        ("defaults/attribute-form", r##"<svg><defaults><rect text-loc="tl" class="d-text-bold"/></defaults><rect xy="20 0" wh="10" text="own"/></svg>"##, "own", Some((21., 1.)), &["d-text-bold", "d-text-top", "d-text-left"], &[]),
+        ("defaults/text-element-content", r##"<svg><defaults><text class="d-text-bold"/></defaults><text xy="3 4">own</text></svg>"##, "own", Some((3., 4.)), &["d-text-bold"], &[]),
+        ("transform/matrix", r##"<svg><rect wh="20 10" transform="matrix(1 0 0 1 100 50)" text="hi"/></svg>"##, "hi", Some((110., 55.)), &[], &[]),
+        ("transform/rotate-180", r##"<svg><rect wh="20 10" transform="rotate(180)" text="hi" text-loc="tl"/></svg>"##, "hi", Some((-19., -9.)), &[], &[]),
+        ("transform/translate", r##"<svg><rect wh="20 10" transform="translate(100 50)" text="hi"/></svg>"##, "hi", Some((110., 55.)), &[], &[]),
+        ("text-with-child/position", r##"<svg><rect id="r" xy="0 0" wh="10"/><text xy="#r@b">a<tspan>b</tspan></text></svg>"##, "ab", Some((5., 10.)), &[], &[]),
+        ("on-use/attribute", r##"<svg><rect id="a" wh="10"/><use href="#a" x="15" y="5" text="hi"/></svg>"##, "hi", Some((20., 10.)), &[], &[]),
+        ("on-use/content", r##"<svg><rect id="a" wh="10"/><use href="#a" x="15" y="5">hi</use></svg>"##, "hi", Some((20., 10.)), &[], &[]),
+        ("reuse-of-text/xy", r##"<svg><specs><text id="t" text="$m"/></specs><reuse href="#t" m="hello" x="5" y="6"/></svg>"##, "hello", Some((5., 6.)), &[], &[]),
+        ("text-style/keeps-style", r##"<svg><text xy="1 2" style="fill:red" text-style="font-weight:bold" text="hi"/></svg>"##, "hi", Some((1., 2.)), &[], &[("style", "fill:red"), ("style", "font-weight:bold")]),
+    ];
+    let st = run_space(scenarios.len(), |i| {
+        let (name, doc, want, anchor, classes, attrs) = scenarios[i];
+        let out = run_str(doc, &Cfg::plain());
+        let mut problem = None;
+        match &out {
+            Outcome::Ok(b) => match xmlref::parse_tree(b, Mode::Document).ok().as_deref().and_then(last_text) {
+                None => problem = Some("no <text> element in the output".to_string()),
+                Some(t) => {
+                    let got = t.text().replace('\u{200B}', "");
+                    if got.trim() != want {
+                        problem = Some(format!("character data {got:?}, expected {want:?}"));
+                    }
+                    if let (None, Some((x, y))) = (&problem, anchor) {
+                        let at = (t.attr("x").and_then(|v| v.parse::<f64>().ok()), t.attr("y").and_then(|v| v.parse::<f64>().ok()));
+                        match at {
+                            (Some(gx), Some(gy)) if (gx - x).abs() < 0.0011 && (gy - y).abs() < 0.0011 => {}
+                            other => problem = Some(format!("anchor {other:?}, expected ({x}, {y})")),
+                        }
+                    }
+                    let cl = t.attr("class").unwrap_or("");
+                    for c in classes {
+                        if problem.is_none() && !cl.split_whitespace().any(|x| x == *c) {
+                            problem = Some(format!("class {c} missing from the text (class=\"{cl}\")"));
+                        }
+                    }
+                    for (k, frag) in attrs {
+                        if problem.is_none() && !t.attr(k).unwrap_or("").replace(' ', "").contains(&frag.replace(' ', "")) {
+                            problem = Some(format!("attribute {k} = {:?} does not contain {frag:?}", t.attr(k)));
+                        }
+                    }
+                }
+            },
+            other => problem = Some(other.brief()),
+        }
+        CaseResult {
+            case_hash: hash64(&doc),
+            nontrivial: problem.is_none(),
+            outcome_hash: hash64(&format!("{out:?}")),
+            executions: 1,
+            violation: problem.map(|p| Violation { clause: "scenario".into(), signature: format!("C19/scenario/{name}"), case: json!({"leg": "scenario", "input": doc}), detail: format!("{doc}\n{p}\n{}", clip(&out.brief(), 400)) }),
+        }
+    });
+    rep.absorb("scenarios", st);
     rep.assume("white space immediately before a line break inside character data is not compared (collapsed by the SVG text model, tidied by the writer)");
     rep.assume("the first line's dy/dx offset of multi-line text is not asserted (the statement does not define it)");
     rep.finish()
